@@ -225,6 +225,30 @@ func cmdCheck(args []string) int {
 			}
 		}
 	}
+	// caller-only postconditions justified by a lemma function are believed only if that lemma function
+	// is verified in this very run, and it must assert the clause it is said to justify
+	for ln := range v.lemmaDeps {
+		inList := false
+		for _, fnm := range fnames {
+			if fnm == ln {
+				inList = true
+			}
+		}
+		if !inList {
+			attach = append(attach, fmt.Sprintf("%s#contract.attach: a postcondition used by this check is justified by lemma function %s, which this check does not verify", ln, ln))
+		}
+	}
+	for cn, c := range v.lib.Contracts {
+		for _, ce := range c.CallerEnsures {
+			if ce.By == "" || !v.lemmaDeps[ce.By] {
+				continue
+			}
+			lc := v.lib.Contracts[ce.By]
+			if lc == nil || !lc.Lemma {
+				attach = append(attach, fmt.Sprintf("%s#contract.attach: %s is not a lemma function (named by an ensures-by clause of %s)", ce.By, ce.By, cn))
+			}
+		}
+	}
 	usedLemmas := map[string]bool{}
 	for _, ln := range v.lib.LemmaOrd {
 		for _, want := range lemmas {
